@@ -116,7 +116,12 @@ func (pk PublicKey) Equal(other *PublicKey) bool {
 // ct ∈ [1, …, N²-1] AND GCD(ct,N²) = 1.
 func (pk PublicKey) ValidateCiphertexts(cts ...*Ciphertext) bool {
 	for _, ct := range cts {
-		if ct == nil {
+		if ct == nil || ct.c == nil {
+			return false
+		}
+		// a value padded with leading zeros to an enormous announced length is small enough to pass
+		// the comparison below and would then be inverted in time quadratic in that length
+		if ct.c.AnnouncedLen() > pk.nSquared.BitLen()+64 {
 			return false
 		}
 		_, _, lt := ct.c.CmpMod(pk.nSquared.Modulus)
